@@ -38,6 +38,12 @@ class WeightedGraph:
             self.E[i, j] = value
             self.incoming[j].add(i)
             self.outgoing[i].add(j)
+        elif (i, j) in self.E:
+            # the weight was cancelled (e.g. `G[i, j] += -w`): drop the edge
+            # instead of silently keeping its previous weight
+            del self.E[i, j]
+            self.incoming[j].discard(i)
+            self.outgoing[i].discard(j)
         return self
 
     def closure(self):
